@@ -412,6 +412,12 @@ fn main() {
             }
         }
     }
+    // the proc-macro crate next to indextree/
+    if let Ok(text) = std::fs::read_to_string(format!("{}/../../indextree-macros/src/lib.rs", src)) {
+        if let Ok(file) = syn::parse_file(&text) {
+            inv_files.push(("macros_lib.rs".to_string(), file));
+        }
+    }
     let inv_out = inv::emit(&inv_files);
     let inv_path = format!("{}/GenInventory.v", outdir);
     if std::fs::read_to_string(&inv_path).map(|old| old != inv_out).unwrap_or(true) {
